@@ -1429,7 +1429,8 @@ class DSAPriv(PrivKey, DSAPub):
         else:
             self.encbytes = packet
 
-        if self.s2k.usage in [0, 255]:
+        if self.s2k.usage == 0:
+            # only unprotected material is followed by a clear-text checksum; with usage 255 it is inside the encrypted octets
             self.chksum = packet[:2]
             del packet[:2]
 
@@ -1470,7 +1471,8 @@ class ElGPriv(PrivKey, ElGPub):
         else:
             self.encbytes = packet
 
-        if self.s2k.usage in [0, 255]:
+        if self.s2k.usage == 0:
+            # only unprotected material is followed by a clear-text checksum; with usage 255 it is inside the encrypted octets
             self.chksum = packet[:2]
             del packet[:2]
 
